@@ -12,6 +12,7 @@ import (
 	"net"
 	"sort"
 	"strings"
+	"sync/atomic"
 	"time"
 
 	"github.com/golang/protobuf/proto"
@@ -21,9 +22,11 @@ import (
 	"github.com/spf13/afero"
 	grpcgun "github.com/yandex/pandora/components/guns/grpc"
 	grpcscenario "github.com/yandex/pandora/components/guns/grpc/scenario"
+	grpcammo "github.com/yandex/pandora/components/providers/grpc"
 	"github.com/yandex/pandora/core"
 	"github.com/yandex/pandora/core/aggregator/netsample"
 	"github.com/yandex/pandora/core/config"
+	"github.com/yandex/pandora/core/warmup"
 	"github.com/yandex/pandora/examples/grpc/server"
 	"github.com/yandex/pandora/zverif/hutil"
 	"github.com/yandex/pandora/zverif/vs"
@@ -417,7 +420,7 @@ calls:
   - name: c2
     tag: order
     call: target.TargetService.Order
-    metadata: {who: '{{.request.c1.preprocessor.u}}'}
+    metadata: {who: '{{.request.c1.preprocessor.u}}', fixed: 'w-{{.request.c1.preprocessor.u}}'}
     payload: '{"token": "{{.request.c1.preprocessor.u}}", "user_id": 5, "item_id": 7}'
 scenarios:
   - name: s1
@@ -554,8 +557,12 @@ func (r *c20run) checkScenario() error {
 			if w := g.MD.Get("who"); len(w) != 1 || w[0] != m.Token {
 				return fmt.Errorf("METADATA: Order call carries metadata who=%v but payload token %q", w, m.Token)
 			}
-			if ks := mdKeys(g.MD); ks != "who" {
-				return fmt.Errorf("METADATA: Order call carries metadata keys [%s], the entry defines [who]", ks)
+			// (the key "fixed" is also used by the Hello call, with another value)
+			if ks := mdKeys(g.MD); ks != "fixed,who" {
+				return fmt.Errorf("METADATA: Order call carries metadata keys [%s], the entry defines [fixed,who]", ks)
+			}
+			if f := g.MD.Get("fixed"); len(f) != 1 || f[0] != "w-"+m.Token {
+				return fmt.Errorf("METADATA: Order call carries fixed=%v, the entry defines w-%s", f, m.Token)
 			}
 			if m.UserID != "5" || m.ItemID != "7" {
 				return fmt.Errorf("MESSAGE: Order payload sent as %s", g.JSON)
@@ -737,12 +744,104 @@ func reflectionTier(out *hutil.Out) {
 	}
 }
 
+// countingTarget answers Hello and counts the calls that reach it.
+type countingTarget struct {
+	server.UnimplementedTargetServiceServer
+	hello *int64
+}
+
+func (c countingTarget) Hello(ctx context.Context, r *server.HelloRequest) (*server.HelloResponse, error) {
+	atomic.AddInt64(c.hello, 1)
+	return &server.HelloResponse{Hello: "hi " + r.Name}, nil
+}
+
+// realGunTier: the real gun over real connections, with the method list taken from a reflection
+// endpoint on another port than the target (reflect_port): every call goes to the target, whether each
+// instance dials for itself or instances share a pool of 1-2 clients made at warm-up.
+func realGunTier(out *hutil.Out) {
+	var atTarget, atReflect int64
+	listen := func(withReflection bool, n *int64) (*grpc.Server, net.Listener, error) {
+		ln, err := net.Listen("tcp", "127.0.0.1:0")
+		if err != nil {
+			return nil, nil, err
+		}
+		srv := grpc.NewServer()
+		server.RegisterTargetServiceServer(srv, countingTarget{hello: n})
+		if withReflection {
+			reflection.Register(srv)
+		}
+		go func() { _ = srv.Serve(ln) }()
+		return srv, ln, nil
+	}
+	tsrv, tln, err := listen(false, &atTarget)
+	if err != nil {
+		out.Cap("real gun tier not run: %v", err)
+		return
+	}
+	defer tsrv.Stop()
+	rsrv, rln, err := listen(true, &atReflect)
+	if err != nil {
+		out.Cap("real gun tier not run: %v", err)
+		return
+	}
+	defer rsrv.Stop()
+	_, rport, _ := net.SplitHostPort(rln.Addr().String())
+	var rp int64
+	fmt.Sscan(rport, &rp)
+	for _, sc := range []struct {
+		shared  bool
+		clients int
+	}{{false, 0}, {true, 1}, {true, 2}} {
+		out.Evals++
+		out.Cells++
+		atomic.StoreInt64(&atTarget, 0)
+		atomic.StoreInt64(&atReflect, 0)
+		conf := grpcgun.DefaultGunConfig()
+		conf.Target = tln.Addr().String()
+		conf.ReflectPort = rp
+		conf.Timeout = 5 * time.Second
+		conf.SharedClient.Enabled = sc.shared
+		conf.SharedClient.ClientNumber = sc.clients
+		name := fmt.Sprintf("shared=%v clients=%d", sc.shared, sc.clients)
+		sharedDeps, err := grpcgun.NewGun(conf).WarmUp(&warmup.Options{Log: nop, Ctx: context.Background()})
+		if err != nil {
+			out.Cap("real gun tier (%s) not run: warm-up: %v", name, err)
+			continue
+		}
+		var samples []gsample
+		const instances, shots = 3, 2
+		for i := 0; i < instances; i++ {
+			g := grpcgun.NewGun(conf)
+			if err := g.Bind(gAgg{&samples}, core.GunDeps{Ctx: context.Background(), Log: nop, PoolID: "p", InstanceID: i, Shared: sharedDeps}); err != nil {
+				out.Violate("C20|real-gun|BIND", name+": "+err.Error(), map[string]any{"tier": "real-gun"})
+				continue
+			}
+			for k := 0; k < shots; k++ {
+				g.Shoot(&grpcammo.Ammo{Tag: "t", Call: "target.TargetService.Hello", Payload: map[string]any{"name": "n"}})
+			}
+		}
+		at, ar := atomic.LoadInt64(&atTarget), atomic.LoadInt64(&atReflect)
+		ok := 0
+		for _, s := range samples {
+			if s.Proto == 200 {
+				ok++
+			}
+		}
+		if at != instances*shots || ar != 0 || ok != instances*shots {
+			out.Violate("C20|real-gun|TARGET", fmt.Sprintf("%s: %d calls were shot by %d instances: %d arrived at the target, %d at the reflection endpoint (reflect_port), %d samples with code 200", name, instances*shots, instances, at, ar, ok), map[string]any{"tier": "real-gun"})
+		}
+	}
+}
+
 func runC20(t interface{ Fatal(...any) }, spec *hutil.Spec, out *hutil.Out, e *vs.Explorer) {
 	_ = afero.WriteFile(memfs, "/gsc20.yaml", []byte(c20scenarioYAML), 0o644)
 	_ = afero.WriteFile(memfs, "/gsc20f.yaml", []byte(c20failYAML), 0o644)
 	_ = afero.WriteFile(memfs, "/gsc19.yaml", []byte(c19grpcScenarioYAML), 0o644)
 	if spec.Worker == 0 && spec.Replay == nil {
 		reflectionTier(out)
+		if spec.Property == "C20" {
+			realGunTier(out)
+		}
 	}
 	for ci, c := range c20cells(spec.Thorough()) {
 		if !spec.Mine(ci) || (spec.Only != "" && !strings.Contains(c.Name(), spec.Only)) {
